@@ -22,7 +22,10 @@ EXTENDS Naturals, Sequences, FiniteSets, TLC, Json, Randomization
 CONSTANTS Family,            \* "logic" | "logic6" | "access"   which atom vocabulary
           MaxDepth,          \* nesting depth of and/or/not
           SampleSize,        \* 0 = all conditions of that depth; otherwise a random subset of that size (RandomSubset)
-          NegUnionFlipsEach
+          NegUnionFlipsEach,
+          FalsyObjs,         \* objects of the world whose Python truth value is False (a class with __bool__ / __len__); R never looks at it
+          OperandTruthFilter \* deviation (TRUE = before the fix, refuted by TLC): a comparison drops a binding whose already bound
+                             \* variable operand holds a falsy value (the operand's result is filtered by its truth value)
 VARIABLE cond
 
 Objs == {"o1", "o2", "o3", "o4"}
@@ -147,9 +150,10 @@ EvCmp(e, b, dom) ==
       rightFirst == b # << >> /\ HasBound(rt, b)
       first == IF rightFirst THEN rt ELSE lt
       second == IF rightFirst THEN lt ELSE rt
-      F1 == EvT(first, b, dom)
+      Dropped(t, bb) == OperandTruthFilter /\ t[1] = "var" /\ t[2] \in Bound(bb) /\ bb[t[2]] \in FalsyObjs
+      F1 == IF Dropped(first, b) THEN <<>> ELSE EvT(first, b, dom)
   IN Flat([i \in DOMAIN F1 |->
-            LET F2 == EvT(second, F1[i].b, dom)
+            LET F2 == IF Dropped(second, F1[i].b) THEN <<>> ELSE EvT(second, F1[i].b, dom)
             IN [j \in DOMAIN F2 |->
                  LET lv == IF rightFirst THEN F2[j].v ELSE F1[i].v
                      rv == IF rightFirst THEN F1[i].v ELSE F2[j].v
